@@ -57,6 +57,10 @@ STRUCTS = {
     "structSubA": np.dtype([("v", "i4", (2,))]),
     "structSubB": np.dtype([("v", "f4", (2,))]),
     "structSubC": np.dtype([("v", "i2", (4,))]),
+    # wide records (str() well over 100 characters) that differ only in their last field / by one trailing field
+    "structWideA": np.dtype([(f"measurement_channel_{i}", "f4") for i in range(7)] + [("tail", "i4")]),
+    "structWideB": np.dtype([(f"measurement_channel_{i}", "f4") for i in range(7)] + [("tail", "f4")]),
+    "structWideC": np.dtype([(f"measurement_channel_{i}", "f4") for i in range(7)] + [("tail", "i4"), ("extra", "u1")]),
 }
 
 
@@ -152,6 +156,19 @@ def _define_user_categories():
         dtypes = {"int64": None, "float64": None}.keys()
 
 
+    # categories made by subclassing an existing category: the dtypes are inherited (plain class inheritance) unless declared again
+    class U_sub_float(jaxtyping.Float):
+        pass
+
+
+    class U_sub_user(U_re_int_anch):
+        """a documented alias"""
+
+
+    class U_sub_redeclared(jaxtyping.Float):
+        dtypes = ["int8", "float16"]
+
+
     STRUCT1 = STRUCTS["struct1"]
     U_struct = make_numpy_struct_dtype(STRUCT1, "U_struct")
 
@@ -173,6 +190,9 @@ def _define_user_categories():
         "U_generator": (U_generator, lambda n: n in ("float16", "uint32")),
         "U_map": (U_map, lambda n: n in ("int16", "complex128")),
         "U_dictkeys": (U_dictkeys, lambda n: n in ("int64", "float64")),
+        "U_sub_float": (U_sub_float, lambda n: dt.accepts("Float", n)),
+        "U_sub_user": (U_sub_user, lambda n: re.match("int(8|16)$", n) is not None),
+        "U_sub_redeclared": (U_sub_redeclared, lambda n: n in ("int8", "float16")),
     }
     for _n, _d in STRUCTS.items():
         if _n != "struct1":
